@@ -14,7 +14,8 @@
 (***************************************************************************)
 EXTENDS Naturals, Sequences, FiniteSets, TLC
 
-CONSTANTS NTasks, MaxDepth, MaxScopes, MaxOps, Bug
+CONSTANTS NTasks, MaxDepth, MaxScopes, MaxOps, Bug,
+          Turn      \* BOOLEAN: a task may answer a cancellation with an exception of its own (SetTurn)
 
 Tasks == 1..NTasks
 Sids == 1..MaxScopes
@@ -28,9 +29,10 @@ VARIABLES pc,       \* [Tasks -> unborn | gate | waiting | done | failed | cance
           residue,  \* [Tasks -> BOOLEAN] an internal TaskGroup cancel was absorbed while waiting (stdlib leaves cancelling() > 0)
           extc,     \* [Tasks -> BOOLEAN] ghost: the task was asked to cancel (asyncio or ctx.cancel)
           will,     \* [Tasks -> BOOLEAN] the task will ctx.spawn one more task from its CancelledError handler
+          turn,     \* [Tasks -> BOOLEAN] the task's CancelledError handler raises an ordinary exception instead: cancelled, it FAILS
           nsid, nops, obs
 
-vars == <<pc, stack, tg, grp, origin, owner, residue, extc, will, nsid, nops, obs>>
+vars == <<pc, stack, tg, grp, origin, owner, residue, extc, will, turn, nsid, nops, obs>>
 
 Live(p) == {t \in Tasks : p[t] \in {"gate", "waiting"}}
 AsyncOf(t) == {stack[t][i].sid : i \in {j \in DOMAIN stack[t] : stack[t][j].async}}
@@ -41,6 +43,7 @@ Init == /\ pc = [t \in Tasks |-> IF t = 1 THEN "gate" ELSE "unborn"]
         /\ origin = [t \in Tasks |-> 0]
         /\ owner = [s \in Sids |-> 0]
         /\ residue = [t \in Tasks |-> FALSE] /\ extc = [t \in Tasks |-> FALSE] /\ will = [t \in Tasks |-> FALSE]
+        /\ turn = [t \in Tasks |-> FALSE]
         /\ nsid = 0 /\ nops = 0
         /\ obs = [pc |-> [t \in Tasks |-> IF t = 1 THEN "gate" ELSE "unborn"], check |-> "none"]
 
@@ -99,6 +102,9 @@ Inherit(p, dead, aborting) ==
 ScopesOf(set) == UNION {AsyncOf(t) : t \in set}
 
 Kill(p, set, how) == [t \in Tasks |-> IF t \in set THEN how[t] ELSE p[t]]
+(* how a task that is cancelled ends: cancelled - or failed, when its own handler turns the cancellation into an error
+   (that is user code catching it; the task group it belongs to is being aborted anyway, so nothing else follows) *)
+Dies(x) == IF turn[x] THEN "failed" ELSE "cancelled"
 
 ApplyDeaths(p, dead, aborting, chk) ==
   LET h == Inherit(p, dead, aborting)
@@ -106,26 +112,35 @@ ApplyDeaths(p, dead, aborting, chk) ==
   /\ pc' = r.pc /\ stack' = r.stack /\ tg' = r.tg /\ grp' = h.grp /\ origin' = h.origin
   \* a will goes with its task: executed (cancelled at its gate) or void (the task failed / ended otherwise)
   /\ will' = [t \in Tasks |-> will[t] /\ t \notin dead /\ r.pc[t] \in {"gate", "waiting"}]
+  /\ turn' = [t \in Tasks |-> turn[t] /\ r.pc[t] \in {"gate", "waiting"}]
   /\ obs' = [pc |-> r.pc, check |-> chk]
 
 -----------------------------------------------------------------------------
 (* open an async scope (own task group) or a sync scope *)
 Open(t, isAsync) ==
   /\ Op(t) /\ Len(stack[t]) < MaxDepth /\ nsid < MaxScopes
-  /\ (isAsync => ~will[t])
+  /\ (isAsync => ~will[t]) /\ ~turn[t]
   /\ nsid' = nsid + 1
   /\ owner' = [owner EXCEPT ![nsid + 1] = t]
   /\ Apply(pc, [stack EXCEPT ![t] = Append(@, [sid |-> nsid + 1, async |-> isAsync, stg |-> tg[t]])],
            [tg EXCEPT ![t] = IF isAsync THEN nsid + 1 ELSE @], "none")
-  /\ UNCHANGED <<grp, origin, residue, extc, will>>
+  /\ UNCHANGED <<grp, origin, residue, extc, will, turn>>
 
 (* the task announces: "if I get cancelled, my handler spawns one more task" *)
 SetWill(t) ==
   /\ Op(t) /\ AsyncOf(t) = {} /\ \A u \in Tasks : ~will[u]
-  /\ Unborn # {}
+  /\ Unborn # {} /\ ~turn[t]
   /\ will' = [will EXCEPT ![t] = TRUE]
   /\ Apply(pc, stack, tg, "none")
-  /\ UNCHANGED <<grp, origin, owner, residue, extc, nsid>>
+  /\ UNCHANGED <<grp, origin, owner, residue, extc, turn, nsid>>
+
+(* the task announces: "if I get cancelled, my handler raises an error of my own" (a leaf task: no scopes of its own; it
+   is only ever cancelled together with the scope it was spawned into) *)
+SetTurn(t) ==
+  /\ Turn /\ Op(t) /\ t # 1 /\ stack[t] = <<>> /\ ~will[t] /\ \A u \in Tasks : ~turn[u]
+  /\ turn' = [turn EXCEPT ![t] = TRUE]
+  /\ Apply(pc, stack, tg, "none")
+  /\ UNCHANGED <<grp, origin, owner, residue, extc, will, nsid>>
 
 (* ctx.spawn: into the innermost async scope visible to t; detached when there is none *)
 Spawn(t, u) ==
@@ -133,7 +148,7 @@ Spawn(t, u) ==
   /\ grp' = [grp EXCEPT ![u] = IF Bug = "spawn_detached" THEN 0 ELSE tg[t]]
   /\ origin' = [origin EXCEPT ![u] = tg[t]]
   /\ Apply([pc EXCEPT ![u] = "gate"], stack, [tg EXCEPT ![u] = tg[t]], "none")
-  /\ UNCHANGED <<owner, residue, extc, will, nsid>>
+  /\ UNCHANGED <<owner, residue, extc, will, turn, nsid>>
 
 (* leave the innermost scope normally; an async scope waits for its members *)
 Leave(t) ==
@@ -143,13 +158,13 @@ Leave(t) ==
        THEN Apply([pc EXCEPT ![t] = "waiting"], stack, tg, "none")
        ELSE LET st2 == [stack EXCEPT ![t] = SubSeq(@, 1, Len(@) - 1)] IN
             Apply(pc, st2, [tg EXCEPT ![t] = top.stg], "none")
-  /\ UNCHANGED <<grp, origin, owner, residue, extc, will, nsid>>
+  /\ UNCHANGED <<grp, origin, owner, residue, extc, will, turn, nsid>>
 
 (* the task's coroutine returns (no scope open) *)
 End(t) ==
   /\ Op(t) /\ stack[t] = <<>> /\ t # 1
   /\ Apply([pc EXCEPT ![t] = "done"], stack, tg, "none")
-  /\ will' = [will EXCEPT ![t] = FALSE]
+  /\ will' = [will EXCEPT ![t] = FALSE] /\ turn' = [turn EXCEPT ![t] = FALSE]
   /\ UNCHANGED <<grp, origin, owner, residue, extc, nsid>>
 
 (* the task raises an Exception at its gate: every scope it has open is left with that error -
@@ -157,10 +172,10 @@ End(t) ==
 Fail(t) ==
   /\ Op(t) /\ t # 1
   /\ LET dead == Doomed(pc, {t})
-         p1 == Kill(pc, dead, [x \in Tasks |-> IF x = t THEN "failed" ELSE "cancelled"])
+         p1 == Kill(pc, dead, [x \in Tasks |-> IF x = t THEN "failed" ELSE Dies(x)])
          vict == FailureVictims(p1, t)
          o == IF grp[t] = 0 THEN 0 ELSE owner[grp[t]]
-         p2 == Kill(p1, vict, [x \in Tasks |-> "cancelled"])
+         p2 == Kill(p1, vict, [x \in Tasks |-> Dies(x)])
          alldead == dead \cup vict
          aborting == ScopesOf(alldead) \cup (IF grp[t] = 0 THEN {} ELSE {grp[t]})
      IN /\ residue' = [residue EXCEPT ![o] = IF o # 0 /\ o \in Live(p2) /\ p1[o] = "waiting" THEN TRUE ELSE @]
@@ -170,22 +185,22 @@ Fail(t) ==
 (* task.cancel() from outside on a task at its gate or waiting for members: it dies cancelled
    together with everything spawned into the scopes it has open *)
 Cancel(t) ==
-  /\ nops < MaxOps /\ nops' = nops + 1 /\ pc[t] \in {"gate", "waiting"}
+  /\ nops < MaxOps /\ nops' = nops + 1 /\ pc[t] \in {"gate", "waiting"} /\ ~turn[t]
   /\ extc' = [extc EXCEPT ![t] = TRUE]
   /\ IF Bug = "swallow_wait_cancel" /\ pc[t] = "waiting"
        THEN LET dead == Doomed(pc, {t}) \ {t} IN
-            ApplyDeaths(Kill(pc, dead, [x \in Tasks |-> "cancelled"]), dead, ScopesOf(dead \cup {t}), "none")
+            ApplyDeaths(Kill(pc, dead, [x \in Tasks |-> Dies(x)]), dead, ScopesOf(dead \cup {t}), "none")
        ELSE LET dead == Doomed(pc, {t}) IN
-            ApplyDeaths(Kill(pc, dead, [x \in Tasks |-> "cancelled"]), dead, ScopesOf(dead), "none")
+            ApplyDeaths(Kill(pc, dead, [x \in Tasks |-> Dies(x)]), dead, ScopesOf(dead), "none")
   /\ UNCHANGED <<owner, residue, nsid>>
 
 (* the task calls ctx.cancel() and then ctx.check_cancellation() before its next suspension:
    the check raises; the cancellation is delivered at the next suspension point *)
 CtxCancel(t) ==
-  /\ Op(t)
+  /\ Op(t) /\ ~turn[t]
   /\ extc' = [extc EXCEPT ![t] = TRUE]
   /\ LET dead == Doomed(pc, {t}) IN
-     ApplyDeaths(Kill(pc, dead, [x \in Tasks |-> "cancelled"]), dead, ScopesOf(dead),
+     ApplyDeaths(Kill(pc, dead, [x \in Tasks |-> Dies(x)]), dead, ScopesOf(dead),
                  IF Bug = "check_never" THEN "passed" ELSE "raised")
   /\ UNCHANGED <<owner, residue, nsid>>
 
@@ -196,12 +211,12 @@ Check(t) ==
   /\ \E answer \in {"passed", "raised"} :
         /\ (answer = "raised" => residue[t])
         /\ Apply(pc, stack, tg, answer)
-  /\ UNCHANGED <<grp, origin, owner, residue, extc, will, nsid>>
+  /\ UNCHANGED <<grp, origin, owner, residue, extc, will, turn, nsid>>
 
 Next == \E t \in Tasks :
           \/ \E a \in BOOLEAN : Open(t, a)
           \/ \E u \in Tasks : Spawn(t, u)
-          \/ Leave(t) \/ End(t) \/ Fail(t) \/ Cancel(t) \/ CtxCancel(t) \/ SetWill(t)
+          \/ Leave(t) \/ End(t) \/ Fail(t) \/ Cancel(t) \/ CtxCancel(t) \/ SetWill(t) \/ SetTurn(t)
           \/ Check(t)
 Spec == Init /\ [][Next]_vars
 
@@ -227,7 +242,7 @@ NotSwallowed == \A t \in Tasks : extc[t] => pc[t] = "cancelled"
 (* C07: ... and so do the tasks spawned into the scopes it had open *)
 CancelCascades ==
   [][\A t \in Tasks : (extc'[t] /\ ~extc[t]) =>
-        \A u \in Doomed(pc, {t}) : pc'[u] = "cancelled"]_vars
+        \A u \in Doomed(pc, {t}) : pc'[u] = Dies(u)]_vars
 (* C07: the cancellation check raises once asked to cancel and not otherwise *)
 CheckAgrees == [][\A t \in Tasks :
                      /\ (obs'.check = "raised" /\ nops' = nops + 1) => (\E u \in Tasks : (extc'[u] /\ ~extc[u]) \/ residue[u])
